@@ -61,3 +61,29 @@ Definition positions_case (deltas : list N) (data : bytes) (reads : list (N * N)
 (* model writer -> model reader with the concrete layout (used by the examples) *)
 Definition positions_model_roundtrip (deltas : list N) (reads : list (N * N)) : bool :=
   positions_case deltas (pos_serialize bp4x_pack deltas) reads.
+
+(* spec: a block cursor re-targeted on a term (reset_block_postings_from_terminfo) after arbitrary prior use reads
+   exactly the posting list of that term (C07_roundtrip + C07_skip_reader_reset: a reset reader is a new reader) *)
+Definition reuse_case (with_freq : bool) (docs tfs : list N) (observed : list (N * N)) : bool :=
+  list_eqb pair_eqb observed (project with_freq (combine docs tfs)).
+
+From TV Require Import Postings.Merge.
+(* spec: one field of a MERGED segment.  `docs`: the documents in the merged doc-id order; `sources`: per source
+   segment its documents and which of them were alive at the merge.  Terms, postings, doc_freq and field norms
+   are those of `docs`; total_num_tokens is the documented estimate (exact without deletes; with deletes and field
+   norms the dequantised sum, Merge.est_source; the f64 pro-rata branch is compared on the implementation side). *)
+Definition check_field_merged (opt : record_option) (normed : bool) (docs : list docin)
+           (observed : list (bytes * list posting)) (doc_freqs : list N) (total : N) (norms : option (list N))
+           (sources : list (list docin * list bool)) : bool :=
+  index_eqb (index_spec opt docs) observed &&
+  list_eqb N.eqb (map (fun e => N.of_nat (length (snd e))) (index_spec opt docs)) doc_freqs &&
+  (if normed || forallb (fun s : list docin * list bool => forallb (fun a : bool => a) (snd s)) sources
+   then merged_total normed sources =? total else true) &&
+  match norms with None => true | Some ns => list_eqb N.eqb (fieldnorm_ids docs) ns end.
+
+(* classifier of known finding F71: a block cursor re-targeted with reset_block_postings_from_terminfo keeps the
+   record option / frequency decoder decided for the term it was opened on; it misreads the new term when the field
+   records frequencies and exactly the kind of the term changes or is "recorded without frequencies"
+   (a non-text JSON leaf) on either side *)
+Definition f71_class (opt : record_option) (docs : list docin) (prev_key new_key : bytes) : bool :=
+  has_freq opt && (negb (term_is_text prev_key docs) || negb (term_is_text new_key docs)).
